@@ -77,7 +77,7 @@ class Proc:
         self.fx.kill_group(self.p)
 
     def record(self, helpers, changed):
-        acq = rel = -1
+        acq = rel = trying = -1
         try:
             with open(self.trace) as f:
                 for l in f:
@@ -86,11 +86,20 @@ class Proc:
                         acq = e["ts"]
                     elif e["point"] == "lock.releasing":
                         rel = e["ts"]
+                    elif e["point"] == "lock.trying":
+                        trying = e["ts"]
         except (OSError, ValueError):
             pass
         return {"p": self.n, "api": self.api, "spawn_ts": self.spawn_ts, "exit_ts": self.exit_ts, "acquired_ts": acq,
-                "releasing_ts": rel, "kill_ts": self.kill_ts, "rc": self.rc if self.rc is not None else -9, "err": self.err,
-                "helpers": helpers, "changed": changed}
+                "releasing_ts": rel, "kill_ts": self.kill_ts, "trying_ts": trying, "held_after_try_ms": -1,
+                "rc": self.rc if self.rc is not None else -9, "err": self.err, "helpers": helpers, "changed": changed}
+
+    def trying(self):
+        try:
+            with open(self.trace) as f:
+                return any('"lock.trying"' in l for l in f)
+        except OSError:
+            return False
 
 
 def helpers_of(fx, proc):
@@ -150,6 +159,34 @@ def parked_scenario(bins, idx, spec, rng):
         fx.cleanup()
 
 
+def queued_scenario(bins, idx, spec, rng):
+    """The holder is released ~0.7 s after a contender has reached lock acquisition (bind_timeout_ms is 1000): a
+    contender that waits for the lock instead of failing at once gets it and is exposed."""
+    fx = new_fixture(bins)
+    try:
+        release = os.path.join(fx.root, "release")
+        holder = Proc(fx, 1, spec["holder"], park=release)
+        deadline = time.time() + 30
+        while not holder.acquired() and time.time() < deadline and holder.p.poll() is None:
+            time.sleep(0.002)
+        cont = Proc(fx, 2, spec["contenders"][0])
+        deadline = time.time() + 20
+        while not cont.trying() and time.time() < deadline and cont.p.poll() is None:
+            time.sleep(0.002)
+        t_end = time.time() + 0.7
+        while time.time() < t_end and cont.p.poll() is None:
+            time.sleep(0.01)
+        time.sleep(max(0.0, t_end - time.time()))
+        with open(release, "w") as f:
+            f.write("go")
+        holder.wait()
+        cont.wait()
+        recs = [holder.record(helpers_of(fx, holder), False), cont.record(helpers_of(fx, cont), False)]
+        return {"ev": "lock", "scenario": idx, "kind": "queued", "spec": spec, "procs": recs}
+    finally:
+        fx.cleanup()
+
+
 def offsets_scenario(bins, idx, rng):
     """Independent driver: 4-8 contenders with random start offsets, nobody parked."""
     fx = new_fixture(bins)
@@ -192,17 +229,31 @@ def run(pid, tier):
         specs.append({"holder": rng.choice(APIS), "contenders": [rng.choice(APIS) for _ in range(rng.randint(1, 5))],
                       "end": rng.choice(["release", "kill", "fail"]), "successor": rng.choice(APIS)})
     noff = 25 if tier == "quick" else 300
+    nq = 6 if tier == "quick" else 60
+    queued = [{"holder": rng.choice(APIS), "contenders": [APIS[q % 4]], "end": "release", "successor": "", "queued": True} for q in range(nq)]
+    specs += queued
     def one(i_s):
         i, s = i_s
         if s is None:
             return offsets_scenario(bins, i, random.Random(chk.seed * 17 + i))
+        if s.get("queued"):
+            return queued_scenario(bins, i, s, random.Random(chk.seed * 17 + i))
         return parked_scenario(bins, i, s, random.Random(chk.seed * 17 + i))
     jobs = list(enumerate(specs + [None] * noff))
     with ThreadPoolExecutor(max_workers=10) as ex:
         recs = list(ex.map(one, jobs))
     # TLC integers are 32-bit: replace the nanosecond stamps of each scenario by their ranks (order and ties preserved)
     for r in recs:
-        keys = ("spawn_ts", "exit_ts", "acquired_ts", "releasing_ts", "kill_ts")
+        # how long (ms) the lock stayed definitely held after an invocation reached its acquisition attempt
+        for q in r["procs"]:
+            best = -1
+            for h in r["procs"]:
+                if h["p"] != q["p"] and h["acquired_ts"] >= 0 and q["trying_ts"] >= 0:
+                    end = h["releasing_ts"] if h["releasing_ts"] >= 0 else (h["kill_ts"] if h["kill_ts"] >= 0 else -1)
+                    if end >= 0 and h["acquired_ts"] < q["trying_ts"] < end:
+                        best = max(best, (end - q["trying_ts"]) // 1000000)
+            q["held_after_try_ms"] = int(best)
+        keys = ("spawn_ts", "exit_ts", "acquired_ts", "releasing_ts", "kill_ts", "trying_ts")
         stamps = sorted({p[k] for p in r["procs"] for k in keys if p[k] >= 0})
         rank = {s: i + 1 for i, s in enumerate(stamps)}
         for p in r["procs"]:
